@@ -31,77 +31,30 @@ example : CfgOK liveCfg ∧ WF liveCfg liveInit ∧
   ⟨⟨by decide, by decide, by decide⟩, ⟨by decide, by decide, by decide, by decide⟩,
    ⟨by decide, by decide, by decide, by decide⟩⟩
 
-theorem synced_brel_eq {w : List Char} : ∀ {l l' : List Expr}, BRelL l l' →
-    (∀ e ∈ l, e.copyDef = true → e.ws = w) → (∀ e ∈ l', e.copyDef = true → e.ws = w) → l' = l
-  | _, _, .nil, _, _ => rfl
-  | _, _, @BRelL.cons a b _ _ hab hr, h, h' => by
-    have hrest := synced_brel_eq hr (fun e he => h e (List.mem_cons_of_mem _ he))
-      (fun e he => h' e (List.mem_cons_of_mem _ he))
-    rw [hrest]
-    congr 1
-    obtain ⟨h1, h2⟩ := hab
-    cases a with | mk wa ca =>
-    cases b with | mk wb cb =>
-    simp only at h1 h2
-    subst h1
-    cases hca : ca with
-    | false => subst hca; simp [h2 rfl]
-    | true =>
-      subst hca
-      have ha := h ⟨wa, true⟩ (by simp) rfl
-      have hb := h' ⟨wb, true⟩ (by simp) rfl
-      simp only at ha hb
-      simp [ha, hb]
-
-/-- invariant of every command relative to a fixed list `b` of built-ins: they stay "the same objects"
-    and stay in sync with the default -/
-theorem run_builtins {cfg : Cfg} (hc : CfgOK cfg) (b : List Expr) : ∀ (cs : List Cmd) {m : Mach},
-    MachOK cfg m → BRelL b m.st.builtins → Synced m.st →
-    BRelL b (run cfg cs m).st.builtins ∧ Synced (run cfg cs m).st
-  | [], _, _, hb, hs => ⟨hb, hs⟩
-  | c :: cs, m, hm, hb, hs => by
+/-- no command changes which built-ins follow the default (`copyDefaultWhiteChars` flags), so the
+    built-ins inside a context are always "the same objects" as on entry -/
+theorem run_flags {cfg : Cfg} (hc : CfgOK cfg) : ∀ (cs : List Cmd) {m : Mach}, MachOK cfg m →
+    flagsOf (run cfg cs m).st.builtins = flagsOf m.st.builtins
+  | [], _, _ => rfl
+  | c :: cs, m, hm => by
     simp only [run]
-    have hm' := MachOK_step hc c hm
-    suffices h : BRelL b (stepCmd cfg c m).1.st.builtins ∧ Synced (stepCmd cfg c m).1.st from
-      run_builtins hc b cs hm' h.1 h.2
+    rw [run_flags hc cs (MachOK_step hc c hm)]
     cases c with
     | op o =>
       simp only [stepCmd]
-      rcases stepOp_builtins cfg o m.st with ⟨h1, h2⟩ | ⟨ch, h1, h2⟩
-      · refine ⟨by rw [h1]; exact hb, ?_⟩
-        intro e he hcd
-        rw [h1] at he
-        rw [h2]
-        exact hs e he hcd
-      · refine ⟨by rw [h1]; exact BRel_setDefaultWs ch b _ hb, ?_⟩
-        intro e he hcd
-        rw [h1] at he
-        rw [h2]
-        exact Synced_setDefaultWs ch m.st e he hcd
-    | enter =>
-      simp only [stepCmd, saveRaises_of_WF hm.wf, Bool.false_eq_true, if_false]
-      exact ⟨hb, hs⟩
+      rcases stepOp_builtins cfg o m.st with ⟨h1, _⟩ | ⟨ch, h1, _⟩
+      · rw [h1]
+      · rw [h1]; exact flagsOf_setDefaultWs ch m.st
+    | enter => simp only [stepCmd, saveRaises_of_WF hm.wf, Bool.false_eq_true, if_false]
     | exit =>
       simp only [stepCmd]
       cases hstk : m.stack with
-      | nil => exact ⟨hb, hs⟩
+      | nil => rfl
       | cons sv rest =>
         simp only
         obtain ⟨s0, hs0, rfl⟩ := hm.frames sv (by rw [hstk]; simp)
         rw [restore_raw hc hs0 hm.wf]
-        simp only [restoredState]
-        by_cases hw : m.st.defaultWs = s0.defaultWs
-        · simp only [hw, bne_self_eq_false, Bool.false_eq_true, if_false]
-          refine ⟨hb, ?_⟩
-          intro e he hcd
-          simp only at he ⊢
-          rw [← hw]
-          exact hs e he hcd
-        · have hw' : (m.st.defaultWs != s0.defaultWs) = true := by simpa using hw
-          simp only [hw', if_true]
-          refine ⟨BRel_setDefaultWs s0.defaultWs b _ hb, ?_⟩
-          intro e he hcd
-          exact Synced_setDefaultWs s0.defaultWs m.st e he hcd
+        exact flagsOf_restoredBuiltins s0 m.st
 
 /-- **restore_total_and_exact.**  From any machine state reachable through the modelled API (`MachOK`),
     for *every* well-nested command sequence `body` (any setters in any order, `force=True` mode
@@ -109,15 +62,15 @@ theorem run_builtins {cfg : Cfg} (hc : CfgOK cfg) (b : List Expr) : ∀ (cs : Li
     * raises neither in `__enter__` nor in any `__exit__` (inner or outer),
     * leaves the stack of enclosing contexts as it was,
     * restores every setting (`obs`) to its value on entry, and the `recursion_memos` object itself,
-    * and, when the built-ins were in sync with the default on entry, restores every built-in's
-      `whiteChars` (see `builtins_unsynced_not_restored` for why the hypothesis is needed). -/
+    * and restores every built-in's `whiteChars` — also of built-ins whose own set was not the
+      default's on entry, such as `line_start` (see `live_builtins_restored_though_unsynced`). -/
 theorem restore_total_and_exact {cfg : Cfg} (hc : CfgOK cfg) (m : Mach) (hm : MachOK cfg m)
     (body : List Cmd) (hb : Balanced body) :
     (run cfg (.enter :: body ++ [.exit]) m).ctxErr = false ∧
     (run cfg (.enter :: body ++ [.exit]) m).stack = m.stack ∧
     obs (run cfg (.enter :: body ++ [.exit]) m).st = obs m.st ∧
     (run cfg (.enter :: body ++ [.exit]) m).st.memo = m.st.memo ∧
-    (Synced m.st → (run cfg (.enter :: body ++ [.exit]) m).st.builtins = m.st.builtins) := by
+    (run cfg (.enter :: body ++ [.exit]) m).st.builtins = m.st.builtins := by
   have hfin := MachOK_run hc (.enter :: body ++ [.exit]) hm
   refine ⟨hfin.noErr, ?_⟩
   simp only [List.cons_append, run]
@@ -134,21 +87,7 @@ theorem restore_total_and_exact {cfg : Cfg} (hc : CfgOK cfg) (m : Mach) (hm : Ma
   simp only [run, stepCmd, hst]
   rw [restore_raw hc hm.wf hm2.wf]
   refine ⟨by first | rfl | trivial, obs_restoredState _ _, by first | rfl | trivial, ?_⟩
-  intro hsync
-  have hinv := run_builtins hc m.st.builtins body hm1 (BRel_refl _) hsync
-  simp only [restoredState]
-  by_cases hw : (run cfg body { m with stack := save cfg m.st :: m.stack }).st.defaultWs = m.st.defaultWs
-  · simp only [hw, bne_self_eq_false, Bool.false_eq_true, if_false]
-    refine synced_brel_eq hinv.1 hsync ?_
-    intro e he hcd
-    rw [← hw]
-    exact hinv.2 e he hcd
-  · have hw' : ((run cfg body { m with stack := save cfg m.st :: m.stack }).st.defaultWs != m.st.defaultWs) = true := by
-      simpa using hw
-    simp only [hw', if_true]
-    refine synced_brel_eq (BRel_setDefaultWs m.st.defaultWs _ _ hinv.1) hsync ?_
-    intro e he hcd
-    exact Synced_setDefaultWs m.st.defaultWs _ e he hcd
+  exact restoredBuiltins_eq _ _ (run_flags hc body hm1)
 
 /-- non-vacuity: the design-time finding F3 as a command sequence (enter with packrat on, switch to left
     recursion with `force=True` inside, plus a nested context switching back) is `Balanced`, starts
@@ -167,27 +106,29 @@ example : Balanced exBody ∧ obs (run liveCfg (.enter :: exBody) exM0).st ≠ o
 theorem live_restore_total_and_exact (pre body : List Cmd) (hb : Balanced body) :
     let m := run liveCfg pre ⟨liveInit, [], false⟩
     let m' := run liveCfg (.enter :: body ++ [.exit]) m
-    m'.ctxErr = false ∧ m'.stack = m.stack ∧ obs m'.st = obs m.st ∧ m'.st.memo = m.st.memo := by
+    m'.ctxErr = false ∧ m'.stack = m.stack ∧ obs m'.st = obs m.st ∧ m'.st.memo = m.st.memo ∧
+    m'.st.builtins = m.st.builtins := by
   have hc : CfgOK liveCfg := ⟨by decide, by decide, by decide⟩
   have h0 : MachOK liveCfg ⟨liveInit, [], false⟩ :=
     ⟨⟨by decide, by decide, by decide, by decide⟩, by simp, rfl⟩
   have hm := MachOK_run hc pre h0
-  have := restore_total_and_exact hc _ hm body hb
-  exact ⟨this.1, this.2.1, this.2.2.1, this.2.2.2.1⟩
+  exact restore_total_and_exact hc _ hm body hb
 
-/-- The hypothesis `Synced` of the built-ins clause cannot be dropped, and the pristine state of the
-    live package does not satisfy it: the built-in `line_start` follows the default
-    (`copyDefaultWhiteChars`) but its `whiteChars` lack `"\n"` (LineStart.__init__ discards it), so
-    a change of the default inside a context followed by the restore leaves it with a different set. -/
-theorem builtins_unsynced_not_restored :
+/-- The built-ins clause needs no "in sync with the default" hypothesis, and that matters for the live
+    package: its pristine state is *not* in sync (the built-in `line_start` follows the default,
+    `copyDefaultWhiteChars`, but its `whiteChars` lack `"\n"` because LineStart.__init__ discards it),
+    a change of the default inside a context does change that built-in, and leaving the context puts its
+    own set back (before /repo e056afa it came back as the full default set: finding
+    `unsynced_builtin_whitechars_not_restored`). -/
+theorem live_builtins_restored_though_unsynced :
     ¬ Synced liveInit ∧
-    (run liveCfg [.enter, .op (.setDefaultWs " "), .exit] ⟨liveInit, [], false⟩).st.builtins ≠ liveInit.builtins := by
-  constructor
-  · intro h
-    have := h ⟨['\t', '\r', ' '], true⟩ (by decide) rfl
-    revert this
-    decide
-  · decide
+    (run liveCfg [.enter, .op (.setDefaultWs " ")] ⟨liveInit, [], false⟩).st.builtins ≠ liveInit.builtins ∧
+    (run liveCfg [.enter, .op (.setDefaultWs " "), .exit] ⟨liveInit, [], false⟩).st.builtins = liveInit.builtins := by
+  refine ⟨?_, by decide, by decide⟩
+  intro h
+  have := h ⟨['\t', '\r', ' '], true⟩ (by decide) rfl
+  revert this
+  decide
 
 /-! ## 2. packrat and left recursion refuse to be combined unless `force=True` -/
 
